@@ -30,8 +30,8 @@ Norm(j) ==
       [] j.kind \in {"enum_int", "enum_string"}    -> Enum(j.kind, Range(j.values), j.named)
       [] j.kind = "list"   -> List(Norm(j.items), j.min, j.max)
       [] j.kind = "map"    -> Map(Norm(j.keys), Norm(j.vals), j.min, j.max)
-      [] j.kind = "object" -> Object(j.id, {PropX(p.name, Norm(p.type), p.required, p.has_default, p.disabled) : p \in Range(j.props)},
-                                     j.id_unenforced)
+      [] j.kind = "object" -> ObjectI(j.id, {PropX(p.name, Norm(p.type), p.required, p.has_default, p.disabled) : p \in Range(j.props)},
+                                      j.id_unenforced, j.impl)
       [] j.kind = "ref"    -> Ref(j.id)
       [] j.kind = "scope"  -> Scope(j.root, {Norm(o) : o \in Range(j.objects)})
       [] j.kind = "oneof"  -> OneOf(j.disc, j.field, {Member(m.key, Norm(m.obj)) : m \in Range(j.members)})
